@@ -247,6 +247,36 @@ static void enumerate(void) {
               carquet_reader_close(rd); }
           free(x); ref_buf_free(&img); ref_arena_free(&RA);
       } }
+    /* a dictionary chunk in which some data pages are PLAIN (what other writers do when the dictionary grows too large, and legal in any order): every subset of
+     * three pages, page sizes growing / shrinking / equal, fixed-width and string columns, REQUIRED and OPTIONAL, two codecs, read from a buffer and through mmap,
+     * in one call and in calls of 3 */
+    mc_stage("dictionary-chunks-with-plain-pages.every-page-subset");
+    { static const int PL[3][3] = { { 8, 4, 8 }, { 4, 8, 8 }, { 6, 6, 6 } }; static const int TL[] = { PT_INT32, PT_INT64, PT_BYTE_ARRAY };
+      for (unsigned pm = 0; pm < 8; pm++) for (int pl = 0; pl < 3; pl++) for (int ti = 0; ti < 3; ti++) for (int opt = 0; opt < 2; opt++) for (int cd = 0; cd < 2; cd++) for (int io = 0; io < 2; io++) for (int step = 0; step < 2; step++) {
+          if (!mc_next()) continue;
+          rfile_t f; memset(&f, 0, sizeof f); f.ncols = 1; f.N = PL[pl][0] + PL[pl][1] + PL[pl][2]; f.nrg = 1; f.codec = cd ? CODEC_SNAPPY : CODEC_NONE; f.crc = true; f.dict_offset_present = true; f.pattern = 0; f.col[0].ptype = TL[ti]; f.enc[0] = ENC_RLE_DICT; f.index_form = REF_H_MIXED; f.level_form = REF_H_MIXED;
+          f.col[0].opt = opt; f.mask[0] = opt ? 0x21084ull : 0; f.npages[0] = 3; for (int q = 0; q < 3; q++) f.page_levels[0][q] = PL[pl][q]; f.plain_pages[0] = pm;
+          mc_desc("c06:dict-with-plain-pages;plain-mask=%u;pages=%d+%d+%d;type=%d;opt=%d;codec=%d;io=%s;step=%d", pm, PL[pl][0], PL[pl][1], PL[pl][2], TL[ti], opt, f.codec, io ? "mmap" : "buffer", step ? 3 : f.N); mc_case_key(mc_mix(0xc06e, ((uint64_t)pm << 24) | ((uint64_t)pl << 20) | ((uint64_t)ti << 16) | ((uint64_t)opt << 8) | ((uint64_t)cd << 4) | ((uint64_t)io << 1) | (uint64_t)step)); mc_nontrivial();
+          ref_buf img; ref_buf_init(&img); static ref_coldata cols[4]; int np = 0; if (rf_build(&RA, &f, &img, NULL, 0, &np, cols)) mc_harness_error("reference writer failed (plain pages in a dictionary chunk)");
+          uint8_t* x = mc_exact(img.p, img.n); carquet_error_t err = CARQUET_ERROR_INIT; carquet_reader_t* rd = NULL; char path[256]; path[0] = 0;
+          if (io) { const char* sd = getenv("VERIF_SCRATCH"); snprintf(path, sizeof path, "%s/c06pp_%d.parquet", sd ? sd : "/dev/shm", (int)getpid()); FILE* fp = fopen(path, "wb"); if (!fp || fwrite(img.p, 1, img.n, fp) != img.n) mc_harness_error("scratch write failed"); fclose(fp); carquet_reader_options_t ro; carquet_reader_options_init(&ro); ro.use_mmap = true; rd = carquet_reader_open(path, &ro, &err); }
+          else rd = carquet_reader_open_buffer(x, img.n, NULL, &err);
+          if (!rd) mc_fail("dict-with-plain-pages.open-failed", "code %d %s", err.code, err.message);
+          else { carquet_column_reader_t* cr = carquet_reader_get_column(rd, 0, 0, &err); int w = TL[ti] == PT_BYTE_ARRAY ? (int)sizeof(carquet_byte_array_t) : ref_type_width(TL[ti], 0);
+              if (!cr) mc_fail("dict-with-plain-pages.column-open-failed", "code %d %s", err.code, err.message);
+              else { uint8_t* vb = mc_exact(NULL, (size_t)w * (size_t)f.N); int16_t* db = mc_exact(NULL, 2 * (size_t)f.N); int64_t rows = 0, nv = 0; bool bad = false; int st = step ? 3 : f.N;
+                  while (rows < f.N && !bad) { int64_t got = carquet_column_read_batch(cr, vb + nv * w, st, opt ? db + rows : NULL, NULL); if (got <= 0) { mc_fail("dict-with-plain-pages.read-stopped", "read_batch(%d) returned %lld after %lld of %d rows", st, (long long)got, (long long)rows, f.N); bad = true; break; }
+                      int64_t nv0 = nv; for (int64_t q = 0; q < got; q++) if (!opt || db[rows + q] == 1) nv++; rows += got;
+                      /* byte-array views are judged before the next call (they need not outlive it for pages that were decompressed or decoded) */
+                      for (int64_t q = nv0; q < nv && q < cols[0].nvalues && !bad; q++) { bool same; if (TL[ti] == PT_BYTE_ARRAY) { const carquet_byte_array_t* b = (const carquet_byte_array_t*)vb + q; same = (size_t)b->length == cols[0].strs[q].n && (b->length == 0 || !memcmp(b->data, cols[0].strs[q].p, (size_t)b->length)); } else same = !memcmp(vb + q * w, cols[0].fixed + q * w, (size_t)w);
+                          if (!same) { mc_fail("dict-with-plain-pages.values", "value #%lld of %lld differs from the stored one", (long long)q, (long long)cols[0].nvalues); bad = true; } } }
+                  if (!bad) { if (rows != f.N || nv != cols[0].nvalues) mc_fail("dict-with-plain-pages.counts", "%lld rows, %lld values; stored %d rows, %lld values", (long long)rows, (long long)nv, f.N, (long long)cols[0].nvalues);
+                      else { for (int64_t q = 0; q < rows && opt; q++) if (db[q] != cols[0].def[q]) { mc_fail("dict-with-plain-pages.def-levels", "row %lld: level %d, stored %d", (long long)q, db[q], cols[0].def[q]); break; } } }
+                  free(vb); free(db); carquet_column_reader_free(cr); }
+              carquet_reader_close(rd); }
+          if (path[0]) remove(path);
+          free(x); ref_buf_free(&img); ref_arena_free(&RA);
+      } }
     mc_stage("repeating-values.real-matches");
     { static const struct { int pt, tl; const char* n; } TYS[] = { { PT_INT32, 0, "i32" }, { PT_INT64, 0, "i64" }, { PT_DOUBLE, 0, "f64" }, { PT_INT96, 0, "i96" }, { PT_FLBA, 1, "flba1" }, { PT_FLBA, 3, "flba3" }, { PT_FLBA, 5, "flba5" }, { PT_FLBA, 7, "flba7" }, { PT_FLBA, 16, "flba16" } };
       static const int NN[] = { 8, 40, 300, 5000 }; static const int CDF[] = { CODEC_SNAPPY, CODEC_LZ4_RAW };
